@@ -9,7 +9,7 @@ from checks import common as c
 from checks import topogen as tg
 
 SPACE = dict({'graph': list(tg.GRAPHS), 'chain': tg.CHAINS, 'chain_rev': ['F80', 'F200', 'F40_U_F30', 'E_F80', 'F10'],
-              'eq': ['test', 'example', 'multiband'], 'bands': ['C', 'CL']}, **tg.SPAN_SPACE)
+              'eq': ['test', 'example', 'multiband'], 'bands': ['C', 'CL', 'CL_first', 'CL_rest']}, **tg.SPAN_SPACE)
 
 
 def original_fibres(topo):
@@ -183,7 +183,7 @@ def main(rep, tier, seed):
     sp = engine.Space(SPACE, bases=[{}, {'graph': 'P3', 'chain': 'F200', 'max_length': 90, 'eq': 'example'},
                                     {'eq': 'multiband', 'bands': 'CL', 'chain': 'F80_F60'},
                                     {'graph': 'TRI', 'chain': 'F40_U_F30', 'mode': 'gain', 'padding': 16}],
-                      constraint=lambda x: tg.consistent(x) and not (x['bands'] == 'CL' and x['eq'] != 'multiband') and
+                      constraint=lambda x: tg.consistent(x) and not (x['bands'] != 'C' and x['eq'] != 'multiband') and
                       not (x['eq'] == 'multiband' and (tg.has_raman(x['chain']) or x['chain'].startswith('E') or '_E' in x['chain']
                                                        or x['chain_rev'].startswith('E'))))
     d = 2 if tier == 'quick' else 3
